@@ -106,6 +106,9 @@ class Sys(e2.DevSys):
         elif nfind == 1 and c.get("lifecycle") and self.started and self.stopped_at is not None:
             # a second request from the same requester after a stop and a restart
             acts.append(("find", 0) + tuple(c["finds"][0]))
+        elif nfind == 1 and c.get("lifecycle") and self.started and self.stopped_at is None and self.finds[0][1] == 1:
+            # a unicast request while the answer to a multicast request may still be pending
+            acts.append(("find", 0) + tuple(c["finds"][0]))
         if c.get("lifecycle") and nfind == 0:
             if self.started:
                 acts += [("ann-stop",), ("stop+find", 0), ("stop+find", 1), ("connlost",)]
@@ -215,8 +218,9 @@ class Sys(e2.DevSys):
             if e[4] != cfg["ttl"] or e[5] != spec[3] or e[6] != want_opts or e[7] != ():
                 self.viol("answer", "content", f"instance {spec[:4]} answered with {e}")
             ok = lo - r <= t <= hi + r
-            if ok and first and c and mode == "must":
-                # (an answer still in the send collector when the instance stops is flushed: earlier is fine)
+            if ok and first and c and mode == "must" and len(self.finds) == 1:
+                # (an answer still in the send collector when the instance stops is flushed: earlier is fine; with two
+                # requests an answer may join the collection period the other answer opened and leave earlier, too)
                 ok = abs(t - hi) < r
             if not ok:
                 self.viol("answer", "time", f"instance {spec[:4]}: answer on the wire at {t}, expected "
@@ -277,7 +281,12 @@ def restrict(thorough, cfg, devs, p, k):
             return p[2][0] in ("find", "ann-start") and p[0] - devs[0][0] <= (1.2 if thorough else 0.3)
         if first == "find":
             # a stop shortly after a find (while the delayed answer is pending)
-            return p[2][0] in ("ann-stop", "connlost") and p[0] - devs[0][0] <= 0.1
+            if p[2][0] in ("ann-stop", "connlost"):
+                return p[0] - devs[0][0] <= 0.1
+            # a unicast request while the delayed answer to a multicast request is pending: its answer overtakes
+            return p[2][0] == "find" and devs[0][2][1] == 1 and p[2][1] == 0 and p[0] - devs[0][0] <= 0.07 \
+                and tuple(devs[0][2][2:]) == tuple(p[2][2:]) == tuple(cfg["finds"][0]) and p[1] == "pre" \
+                and (thorough or devs[0][0] <= 1.3)
         return False
     if k == 4:
         return [d[2][0] for d in devs] == ["find", "ann-stop", "ann-start"] and p[2][0] == "find" \
@@ -285,6 +294,9 @@ def restrict(thorough, cfg, devs, p, k):
             and tuple(devs[0][2][2:]) == tuple(cfg["finds"][0]) and devs[1][0] - devs[0][0] <= 0.01 \
             and (thorough or devs[0][0] <= 1.3)
     if k == 3:
+        if [d[2][0] for d in devs] == ["find", "find"]:
+            # ... and a stop after the overtaking answer, before the overtaken one is due
+            return p[2][0] in ("ann-stop", "connlost") and p[0] - devs[0][0] <= 0.07
         if [d[2][0] for d in devs] == ["find", "ann-stop"]:
             # restart while the answer to an earlier request is still pending
             return p[2][0] == "ann-start" and p[0] - devs[1][0] <= 0.07
@@ -308,7 +320,7 @@ def check(ctx):
         configurations=len(allc), placements_discovered=res.instants, distinct_outcomes=len(res.outcomes),
         find_variants=len(find_menu(s, s2)) * 2, caps_hit=[res.capped] if res.capped else [],
         exhaustive=res.capped is None,
-        note="a run holds at most one FindService; k counts placed events (find, stop, start)",
+        note="a run holds one FindService, or two in the patterns find-stop-start-find and multicast find-unicast find(-stop); k counts placed events (find, stop, start)",
     )
     return core.finish(ctx, "model_checking", cov, viols, [
         "an answer that is pending (delayed or in the send collector) when the instance stops may or may not leave "
